@@ -28,8 +28,9 @@ def main():
         ev = dict(property_id=pid, tier=tier, seed=int(os.environ.get('VERIF_SEED', '0')), level='proof',
                   coverage=dict(evaluations=1, distinct_nontrivial=2, obligations=1, discharged=0, checker_cmd='n/a', trusted_base=[],
                                 explanation='check aborted by an unexpected exception: ' + tb[-500:]), wall_s=0.0, violations=1)
-        os.makedirs(os.path.join(V, 'evidence'), exist_ok=True)
-        json.dump(ev, open(os.path.join(V, 'evidence', f"{pid}.json"), 'w'), indent=1)
+        evdir = os.path.join(V, 'evidence' if 'VERIF_REPO' not in os.environ else '.other-tree-evidence')
+        os.makedirs(evdir, exist_ok=True)
+        json.dump(ev, open(os.path.join(evdir, f"{pid}.json"), 'w'), indent=1)
         print(f"VIOLATION property={pid} replay={path} no-failing-input-found")
         return 1
 
